@@ -125,3 +125,19 @@ func VerifC13CoalesceLazy() {
 	}
 	zzverif.Assert((err != nil) == (vals[2].Int == 0), "error-exactly-when-the-chosen-argument-fails")
 }
+
+// VerifC09EqOperator (C09): the SQL operator = (whatever overload the typechecker picks for two
+// operands of the same scalar type) agrees with Value.Compare: a = b is TRUE exactly when
+// Compare(a, b) == 0 — for NaN and signed zeros as for everything else, so that =, GROUP BY,
+// DISTINCT and joins have one notion of equality.
+func VerifC09EqOperator() {
+	setup()
+	scalars := []octosql.Type{tInt, tFlt, tBool, tStr, tTime, tDur}
+	t := scalars[zzverif.Choice("type", len(scalars))]
+	types := []octosql.Type{t, t}
+	vals := []octosql.Value{vx.ValueOfType("a", t, 1, zzverif.Param("S")), vx.ValueOfType("b", t, 1, zzverif.Param("S"))}
+	r := call("=", types, vals)
+	zzverif.Reach("evaluated")
+	zzverif.Assert(r.TypeID == octosql.TypeIDBoolean, "boolean-result")
+	zzverif.Assert(r.Boolean == (vals[0].Compare(vals[1]) == 0), "equals-operator-agrees-with-compare")
+}
